@@ -272,3 +272,56 @@ def single_cancel_model(ctx, rep, rule):
                   f.qualname, "`%s`" % src(stmt_of(n)),
                   "a task is cancelled without being awaited (or outside the analysed owners): the canceller "
                   "may leave before the task has ended")
+
+
+def user_shutdown_unconditional(ctx, rep, rule):
+    """a coroutine-based job hands the shutdown event to the user's shutdown coroutine whenever one was given:
+    the await of the stored coroutine in co_shutdown() is guarded by nothing but the presence of that coroutine
+    (not by what the job did during the run)"""
+    r = ctx.roles
+    n = 0
+    for cls in ctx.prog.subclasses(r.jobbase, strict=True):
+        if cls in r.nestable or any(cls in x.mro for x in r.nestable):
+            continue
+        f = cls.methods.get('co_shutdown')
+        if f is None:
+            continue
+        stored = {a.targets[0].attr for g in [cls.methods.get('__init__')] if g is not None
+                  for a in walk_local(g.node) if isinstance(a, ast.Assign) and len(a.targets) == 1
+                  and isinstance(a.targets[0], ast.Attribute)}
+        aws = [a for a in walk_local(f.node) if isinstance(a, ast.Await) and isinstance(a.value, ast.Attribute)
+               and isinstance(a.value.value, ast.Name) and a.value.value.id == 'self' and a.value.attr in stored]
+        if not aws:
+            continue
+        for a in aws:
+            n += 1
+            attr = a.value.attr
+            guards = []
+            node = a
+            while node is not None and node is not f.node:
+                par = getattr(node, '_parent', None)
+                if isinstance(par, (ast.If, ast.While)) and node is not par.test:
+                    guards.append(par.test)
+                elif isinstance(par, ast.IfExp) and node is not par.test:
+                    guards.append(par.test)
+                elif isinstance(par, (ast.For, ast.AsyncFor, ast.Try, ast.With)):
+                    pass
+                node = par
+            # early returns before the await
+            for s in f.node.body:
+                if s.lineno >= a.lineno:
+                    break
+                if isinstance(s, ast.If) and any(isinstance(x, (ast.Return, ast.Raise)) for x in ast.walk(s)):
+                    guards.append(s.test)
+            bad = []
+            for g in guards:
+                reads = {x.attr for x in ast.walk(g) if isinstance(x, ast.Attribute)} | \
+                        {x.func.attr for x in ast.walk(g) if isinstance(x, ast.Call) and isinstance(x.func, ast.Attribute)}
+                if reads - {attr}:
+                    bad.append(src(g))
+            rep.check(not bad, rule, "%s:%d user shutdown coroutine awaited whenever it was given"
+                      % (f.module.relpath, a.lineno), f.qualname,
+                      "`await self.%s` is guarded by %s" % (attr, bad),
+                      "a job whose shutdown coroutine was given does not receive the shutdown event in some runs "
+                      "(e.g. when it never started, or had failed)")
+    rep.need(rule, n, 1, "awaits of a user shutdown coroutine")
